@@ -82,7 +82,7 @@ pub fn run(ctx: &Ctx) -> Report {
 	total.rule = "every path text {relative,absolute} x SEG^{<=n} accepted by the reference DFA, plus threshold paths (15..40 segments, 510..2000 bytes); each stand-alone (iterator, normalised copy, in-place) and embedded in p, s:p, //h p, s://h p, // p, s:// p with and without ?q#f where the composition is valid and re-splits to the same path; non-trivial = distinct path text containing a dot segment, or distinct embedding".into();
 	let plans: Vec<(u8, usize)> = if ctx.quick() { vec![(0, 6), (1, 4)] } else { vec![(0, 8), (1, 5), (2, 4)] };
 	let mut seen: std::collections::HashSet<(Family, Vec<u8>)> = std::collections::HashSet::new();
-	for f in Family::BOTH {
+	for f in Family::active() {
 		let d = refs.dfa(f, Kind::Path);
 		let dref = refs.dfa(f, Kind::RiRef);
 		let mut all: Vec<Vec<u8>> = Vec::new();
